@@ -53,6 +53,7 @@ struct Case {
     uint64_t (*digest)(Case *);
     int (*correct)(Case *);
     int (*failcheck)(Case *);
+    int (*usable)(Case *); /* long-lived object still consistent and working (whatever its contents) */
     void (*release)(Case *);
 };
 
@@ -115,6 +116,11 @@ static void sweep(const VhLine *l, Case *c) {
                 ch = 'V';
                 mon("C18", "%s: void API cannot report the failed allocation %zu of %zu: the result is incomplete", c->name,
                     k, N);
+                if (c->usable && !c->usable(c)) {
+                    ch = 'X';
+                    mon("C18", "%s: allocation %zu of %zu failed and the object is inconsistent or unusable afterwards",
+                        c->name, k, N);
+                }
             } else if (c->correct(c)) {
                 ch = 'C';
             } else {
@@ -451,6 +457,23 @@ static int fail_bm(Case *c) {
     }
     return bm_consistent(c->X);
 }
+static int usable_bm(Case *c) {
+    if (!bm_consistent(c->X)) {
+        return 0;
+    }
+    uint16_t probe[4] = {1, 30000, 65535, 2};
+    for (int i = 0; i < 4; i++) {
+        bool had = varintBitmapContains(c->X, probe[i]);
+        bool r = varintBitmapAdd(c->X, probe[i]);
+        if (r == had || !varintBitmapContains(c->X, probe[i])) {
+            return 0;
+        }
+    }
+    if (!varintBitmapRemove(c->X, probe[0]) || varintBitmapContains(c->X, probe[0])) {
+        return 0;
+    }
+    return bm_consistent(c->X);
+}
 static void rel_bm(Case *c) {
     varintBitmapFree(c->X);
     varintBitmapFree(c->R);
@@ -688,6 +711,7 @@ static void op_oom_bitmap(const VhLine *l) {
     c.digest = dig_bm;
     c.correct = ok_bm;
     c.failcheck = bm_ptr_op(&c) ? NULL : fail_bm;
+    c.usable = bm_ptr_op(&c) ? NULL : usable_bm;
     c.release = rel_bm;
     /* the all-granted result, for ok_bm */
     g_bm_expect = 0;
